@@ -144,6 +144,12 @@ func escapeInvalidURLChars(url string) string {
 // (with its escaped reserved characters, e.g. %2F) stays the one that is
 // written by URL.String().
 func TrimTrailingSlash(u *nurl.URL) {
+	// Only a slash that ends the URL is trimmed: /article/?page=2 and
+	// /article?page=2 are different addresses.
+	if u.RawQuery != "" || u.ForceQuery {
+		return
+	}
+
 	if u.RawPath != "" {
 		if !strings.HasSuffix(u.RawPath, "/") {
 			// The path ends with an escaped character
